@@ -115,9 +115,12 @@ func (s *ApplyStage) ProcessWithStatus(ctx context.Context, item *BlockItem) ([]
 	if item.SequenceNumber() == s.nextSequence {
 		s.nextSequence++
 		s.inFlight++
-		s.mu.Unlock()
 		if verifEnabled {
 			verifTrace("apply_deq", item, 0)
+		}
+		s.mu.Unlock()
+		if verifEnabled {
+			verifStageDelay("apply_deq", item)
 		}
 		s.maybeApply(ctx, item)
 		if verifEnabled {
@@ -136,10 +139,10 @@ func (s *ApplyStage) ProcessWithStatus(ctx context.Context, item *BlockItem) ([]
 	// Buffer for later - always add to preserve sequence ordering
 	s.pending[item.SequenceNumber()] = item
 	pendingCount := len(s.pending)
-	s.mu.Unlock()
 	if verifEnabled {
 		verifTrace("apply_buf", item, pendingCount)
 	}
+	s.mu.Unlock()
 
 	// Check pending limit after buffering - return error to signal backpressure
 	// but the item is still buffered to prevent sequence gaps
@@ -170,6 +173,9 @@ func (s *ApplyStage) maybeApply(ctx context.Context, item *BlockItem) {
 func (s *ApplyStage) finishItem() {
 	s.mu.Lock()
 	s.inFlight--
+	if verifEnabled {
+		verifTrace("apply_fin", nil, s.inFlight)
+	}
 	s.mu.Unlock()
 }
 
@@ -178,6 +184,9 @@ func (s *ApplyStage) finishItem() {
 func (s *ApplyStage) processedCount() uint64 {
 	s.mu.Lock()
 	defer s.mu.Unlock()
+	if verifEnabled {
+		verifTrace("pending_processed", nil, int(s.nextSequence)-s.inFlight)
+	}
 	return s.nextSequence - uint64(s.inFlight) // #nosec G115
 }
 
@@ -228,9 +237,12 @@ func (s *ApplyStage) applyPending(ctx context.Context) []*BlockItem {
 		delete(s.pending, s.nextSequence)
 		s.nextSequence++
 		s.inFlight++
-		s.mu.Unlock()
 		if verifEnabled {
 			verifTrace("apply_deq", item, 1)
+		}
+		s.mu.Unlock()
+		if verifEnabled {
+			verifStageDelay("apply_deq", item)
 		}
 
 		// Apply if valid, otherwise just advance (sequence already incremented)
